@@ -188,6 +188,16 @@ async def episode(loop, history, gaps, eavesdrop, checkpoints, slog: StoreLog) -
                 await rigB.stop()
             except Exception as e:  # noqa: BLE001
                 case["errorB"] = repr(e)
+            # fresh gateway C from A's packets alone (a client that restores the state but not the schema)
+            rigC = gwrig.Rig(loop, config={"enable_eavesdrop": eavesdrop})
+            try:
+                await rigC.start(cached_packets=dict(pktsA))
+                for _ in range(3):
+                    await asyncio.sleep(0)
+                case["pktsC"] = rigC.gwy.get_state(include_expired=inc)[1]
+                await rigC.stop()
+            except Exception as e:  # noqa: BLE001
+                case["errorC"] = repr(e)
             # restore into A itself: nothing changes
             try:
                 await A._restore_cached_packets(dict(pktsA))
@@ -240,6 +250,17 @@ def run(chk: Check) -> None:
         corpus.append((["RP --- 01:078710 18:199952 --:------ 000C 006 000D001C4456", " I --- 07:017494 --:------ 07:017494 1260 003 0013F4",
                         "RP --- 01:078710 07:017494 --:------ 10A0 006 0013880003E8", " I --- 01:078710 --:------ 01:078710 1F09 003 FF0532",
                         "RP --- 01:078710 18:199952 --:------ 10A0 006 0013880003E8"], [0.5, 0.2, 0.8, 7.6, 6.1]))
+        # ... the first addressee being a device the gateway knows of only through the controller's RP|000C (its own packets come
+        # later, or never): a thermostat asking for its zone's configuration, a DHW sensor asking for the DHW parameters
+        corpus.append((["RP --- 01:145038 18:006402 --:------ 000C 006 010400896853", "RP --- 01:145038 34:092243 --:------ 000A 006 011001F40DAC",
+                        " I --- 34:092243 --:------ 34:092243 30C9 003 0007C3", "RP --- 01:145038 18:006402 --:------ 000A 006 011001F40DAC"],
+                       [0.5, 59.9, 60.0, 60.1]))
+        corpus.append((["RP --- 01:145038 18:006402 --:------ 000C 006 010400896853", "RP --- 01:145038 34:092243 --:------ 000A 006 011001F40DAC",
+                        "RP --- 01:145038 18:006402 --:------ 000A 006 011001F40DAC"], [0.5, 59.9, 120.1]))
+        corpus.append((["RP --- 01:078710 18:006402 --:------ 000C 006 000D001C4456", "RP --- 01:078710 07:017494 --:------ 10A0 006 0013880003E8",
+                        " I --- 01:078710 --:------ 01:078710 1F09 003 FF0532", "RP --- 01:078710 18:006402 --:------ 10A0 006 0013880003E8"],
+                       [0.5, 0.8, 7.6, 6.1]))
+        n_plain_corpus = len(corpus)
         for ep in range(n_ep + len(corpus)):
             fixed_gaps = None
             if ep < len(corpus):
@@ -295,7 +316,7 @@ def run(chk: Check) -> None:
             for case in res["cases"]:
                 # a packet is its timestamp and frame; the trailing ` # header (context)` annotation that repr() adds is not
                 # part of it (it can differ when a two-packet array was merged the first time round) - compared separately
-                for key in ("pktsA", "pktsB", "pktsB2", "pktsA2"):
+                for key in ("pktsA", "pktsB", "pktsB2", "pktsA2", "pktsC"):
                     if isinstance(case.get(key), dict):
                         raw = case[key]
                         case[key] = {k: v.split(" # ")[0].rstrip() for k, v in raw.items()}
@@ -364,6 +385,14 @@ def run(chk: Check) -> None:
                             chk.violation("c16.fixpoint.schema.orphan_presence", f"schema differs after restore into a fresh gateway: {json.dumps(case['schemaA'])[:300]} vs {json.dumps(case['schemaB'])[:300]}", rep)
                     else:
                       chk.violation("c16.fixpoint.schema.orphan_presence" if only_orphans else "c16.fixpoint.schema.empty_dhw" if empty_dhw else "c16.fixpoint.schema", f"schema differs after restore into a fresh gateway: {json.dumps(case['schemaA'])[:300]} vs {json.dumps(case['schemaB'])[:300]}", rep)
+                if "errorC" in case:
+                    chk.violation("c16.restore_fresh_no_schema.raises:" + case["errorC"].split("(")[0], f"building a gateway from A's packets alone raised {case['errorC']}", rep)
+                elif case.get("pktsC") is not None and case["pktsC"] != A1:
+                    C1 = case["pktsC"]
+                    lost = sorted(set(A1) - set(C1))[:3]
+                    extra = sorted(set(C1) - set(A1))[:3]
+                    chk.violation("c16.expired_purged_on_replay" if only_expired_lost(A1, C1, case["inc"], case["now"]) else "c16.fixpoint.packets_no_schema",
+                                  f"snapshot -> fresh gateway (packets only, no schema) -> snapshot differs: lost {[(k, A1[k]) for k in lost]} extra {[(k, C1[k]) for k in extra]}", rep)
                 if case.get("pktsB2") is not None and case["pktsB2"] != B1:
                     chk.violation("c16.expired_purged_on_replay" if only_expired_lost(B1, case["pktsB2"], case["inc"], case["now"]) else "c16.restore_twice", "restoring the same snapshot a second time changed the snapshot", rep)
                 if "errorA" in case:
